@@ -73,6 +73,14 @@ CLAIMED = {
         text="C16_const_is_documented / C16_owned_is_documented: each of the two schema walks of key/hash.rs, interpreting the tag table translated from ITS OWN copy of the code and the FNV constants translated from the source, yields le_bytes 8 (FNV-1a64 (path ++ documented stream)) for every schema tree and path; C16_hashers_agree; C16_type_names_ignored: struct/enum type names never enter the key; C16_one_byte_changes_key: every FNV-1a step is a bijection of the 64-bit state and injective in the byte (inverse of the prime exhibited), so changing exactly one hashed byte (path byte, name byte, kind tag - C16_tags_distinct) always changes the key. Partial: collision-freeness for longer edits is not a theorem (2^64 keys); order sensitivity is FALSE on the unchanged tree (C16_order_sensitivity_refuted, C16_swap_condition; known finding F10). Correspondence + direct oracle: const hasher (cfg hook) vs run-time hasher vs independent FNV over an independent stream function, every single-node mutation.",
         note=NOTE + "the const-fn evaluation of the hasher by rustc (the hook runs the same function at run time); Key::for_path::<T> checked against the hook on a corpus",
         design="7 (C16)"),
+    'C17': dict(
+        text="C17 (at this commit): the dyn crate's private varint/zig-zag copies equal the core's (translated tables and expressions, by reflexivity); the agreement statements dyn_ser schema (json_of v) = static bytes and dyn_de schema bytes = json_of v are decided by correspondence and direct oracle: to_stdvec_dyn(schema, serde_json::to_value(v)) == to_allocvec(v) and from_slice_dyn(schema, bytes) == to_value(v) on random shapes and the concrete type corpus within the property's restrictions, both also against the extracted hand model of the two walks (0 disagreements on ~6.5k cases after the fixes). See DESIGN.md for the proof status of the agreement theorem.",
+        note=NOTE + "serde_json (Value, Number, Map ordering, to_value), the host's float conversions (u64/i64->f64, f64->f32, f32->f64: parameters of the model, supplied by OCaml floats in the runner); the control structure of the two walks is hand-modelled",
+        design="8 (C17)"),
+    'C18': dict(
+        text="C18_decode_total: for every well-formed schema tree and every byte string from_slice_dyn's model never panics (no todo!/unreachable arm in the translated table, no over-wide shift in the private varint reader, every take_one/take_n/get checked) and every remainder it passes on is a suffix of the input; C18_encode_total: to_stdvec_dyn's model never panics for every schema and every JSON value; C18_private_reader: the private varint reader = the reference reader of the wire format. Partial: the allocation bound and the re-encode clause are FALSE on the unchanged tree for three classes (C18_allocation_bound_refuted, C18_reencode_refuted_option, C18_reencode_refuted_duplicate_fields = known findings F9, F7, F8) and are otherwise decided by the harness (counting allocator; decode + re-encode of everything the encoder accepts) and the model comparison on ~18k cases per run.",
+        note=NOTE + "serde_json, the host's float conversions (parameters of the model), the allocator; the control structure of the two walks is hand-modelled and compared with the crate on every run",
+        design="8 (C18)"),
     'C19': dict(
         text="C19_render_total: to_pseudocode/Display (hand-modelled control structure over the string literals and panic-arm tables translated from fmt.rs) returns text for every well-formed schema; C19_used_types_total: all_used_types answers for every schema incl. Usize/Isize/Schema (no panicking arm in the translated table - false before fix e6c0fbb); C19_used_types_exact: the collected set is exactly the schema and everything nested in it (subschema relation), nothing else; C19_struct_mentions / C19_enum_mentions: the top-level rendering contains the type name, each field name and each variant name as infixes. Correspondence + direct oracle: text compared byte for byte, set compared with an independent nesting function, catch_unwind.",
         note=NOTE + "String/format!/HashSet of std; the formatter's control structure is hand-modelled (its literals and panic arms are translated)",
